@@ -27,7 +27,7 @@ META = {
     'quotas': {
         'quick': {'exhaustive-2-node-graph-orders': 3000, 'three-node-graph-orders': 800, 'random-graph-orders': 1500,
                   'generated-graph-orders': 100, 'class:cycle': 200, 'class:self-loop': 200, 'class:gated-parent-of-and': 100,
-                  'class:and-mixed-parents': 100, 'labels-compared': 50000, 'class:gated-own-status-parent': 50},
+                  'class:and-mixed-parents': 100, 'labels-compared': 50000, 'class:gated-own-status-parent': 50, 're-analysis-of-the-same-graph': 50},
         'thorough': {'exhaustive-2-node-graph-orders': 14000, 'three-node-graph-orders': 270000, 'random-graph-orders': 200000,
                      'generated-graph-orders': 10000, 'labels-compared': 5000000},
     },
@@ -95,7 +95,7 @@ def classify(desc, res):
     return nt
 
 
-def check_desc(desc, orders, res, count=True, shuffle_edges=None):
+def check_desc(desc, orders, res, count=True, shuffle_edges=None, redo=None):
     """returns (key, what) or None"""
     ps = parents_of(desc)
     ambiguous = any(agraph.gated_kind(nd['ttc']) == 'ambiguous' for nd in desc['nodes'])
@@ -124,6 +124,31 @@ def check_desc(desc, orders, res, count=True, shuffle_edges=None):
             return ('apriori.%s:%s-node-%s' % (which, nd['type'], 'not-greatest-solution' if sol else 'equations-violated'),
                     'node order %s: node %d (%s, parents %s) labelled (viable=%s, necessary=%s), greatest fixed point says %s; labels %s expected %s' % (
                         list(order), i, nd['type'], ps[i], lab[i][0], lab[i][1], refs[0][i], lab, refs[0]))
+        if k == 0 and redo is not None:
+            # analyse the SAME graph object again after defense / existence statuses were changed in place and the
+            # labels reset to their defaults: the result must be the fixed point of the new statuses
+            d2 = copy.deepcopy(desc)
+            for i, nd in enumerate(d2['nodes']):
+                if nd['type'] == 'defense' and redo.random() < 0.6:
+                    nd['defense_status'] = redo.choice([0.0, 1.0, 0.5])
+                elif nd['type'] in ('exist', 'notExist') and redo.random() < 0.6:
+                    nd['existence_status'] = not nd['existence_status']
+                objs[i].defense_status, objs[i].existence_status = nd['defense_status'], nd['existence_status']
+                objs[i].is_viable, objs[i].is_necessary = True, True
+            try:
+                from maltoolbox.attackgraph.analyzers.apriori import calculate_viability_and_necessity
+                calculate_viability_and_necessity(g)
+            except Exception as exc:
+                return ('apriori:raised-%s' % type(exc).__name__, 're-analysis raised %r' % (exc,))
+            lab2 = [(bool(o.is_viable), bool(o.is_necessary)) for o in objs]
+            refs2 = [list(zip(*agraph.reference_labels(d2['nodes'], ps, cg))) for cg in ((False, True) if ambiguous else (False,))]
+            if count:
+                res.count('re-analysis-of-the-same-graph')
+            if lab2 not in refs2:
+                i = next(i for i in range(len(lab2)) if lab2[i] != refs2[0][i])
+                return ('apriori:re-analysis-of-the-same-graph-wrong',
+                        'after changing statuses in place and analysing the same graph again node %d (%s) is labelled %s, fixed point %s' % (
+                            i, d2['nodes'][i]['type'], lab2[i], refs2[0][i]))
         if first_lab is None:
             first_lab = lab
         elif lab != first_lab:
@@ -206,7 +231,7 @@ def run(rng, res, tier, shard, nshards):
             o = list(range(size))
             rng.shuffle(o)
             orders.append(o)
-        f = check_desc_safe(desc, orders, res, shuffle_edges=rng)
+        f = check_desc_safe(desc, orders, res, shuffle_edges=rng, redo=(rng if rng.random() < 0.4 else None))
         res.count('random-graph-orders', len(orders))
         nt = classify(desc, res)
         res.case(digest(desc) if nt else None)
